@@ -449,7 +449,7 @@ func genOtherNotation(t *rapid.T) string {
 		fmt.Sprintf("2002:%x:%x::1", hi, lo), "::1", "::", "fe80::1", "fe80::1%eth0", fmt.Sprintf("2001:db8::%x", lo),
 		fmt.Sprintf("%d", v), fmt.Sprintf("0x%08x", v), fmt.Sprintf("0%o", v), fmt.Sprintf("%d.%d.%d", a, b, c<<8|d), fmt.Sprintf("%d.%d", a, v&0xffffff), fmt.Sprintf("%d.%d.%d", a, b, c),
 		fmt.Sprintf("0x%x.0x%x.0x%x.0x%x", a, b, c, d), fmt.Sprintf("%d.%d.%d.+%d", a, b, c, d), fmt.Sprintf("%d.-%d.%d.%d", a, b, c, d), fmt.Sprintf("%d,%d,%d,%d", a, b, c, d), fmt.Sprintf("%d.%d.%d.", a, b, c),
-		fmt.Sprintf("%d %d %d %d", a, b, c, d), fmt.Sprintf("%d.%d.%d.\u0664", a, b, c), "\uff11.\uff12.\uff13.\uff14", "localhost", "controller.local", "any", "", " ", "*", "udp", "0", "lo", "lo0", "eth0", "en0", "wlan0", "docker0", "ens3", localInterface(0), localInterface(1), localInterface(2)}).Draw(t, "host")
+		fmt.Sprintf("%d %d %d %d", a, b, c, d), fmt.Sprintf("%d.%d.%d.\u0664", a, b, c), "\uff11.\uff12.\uff13.\uff14", "fe80::1%eth0.100.200.qinq", "fe80::1%a.b.c.d", "::%...", "::1%1.2.3", fmt.Sprintf("fe80::%x%%%d.%d.%d.x", lo, a, b, c), fmt.Sprintf("::%%.%d.%d.", a, b), "fe80::1%.a.b.c", "localhost", "controller.local", "any", "", " ", "*", "udp", "0", "lo", "lo0", "eth0", "en0", "wlan0", "docker0", "ens3", localInterface(0), localInterface(1), localInterface(2)}).Draw(t, "host")
 	switch rapid.IntRange(0, 3).Draw(t, "form") {
 	case 0:
 		return host
